@@ -441,6 +441,42 @@ func ruleMaterializeTable() check.Rule {
 			}
 			ctorOfSlot := [3]string{"NewNotificationNext", "NewNotificationError", "NewNotificationComplete"}
 			// Materialize: slot k emits Next(NewNotification<k>) ; terminal slots then complete
+			// the readers hand every notification they receive to a dispatcher together with the destination
+			for _, name := range []string{"ro.Dematerialize"} {
+				sc := m.SCByName(name)
+				if sc == nil {
+					continue
+				}
+				key := name + "/dispatches"
+				ok := false
+				for _, st := range sc.SubSites {
+					if st.Observer == nil || st.Observer.Kind != model.AVObserver {
+						continue
+					}
+					if sl := st.Observer.Slots[model.SlotNext]; sl != nil && sl.Lit != nil {
+						ast.Inspect(sl.Lit.Body, func(x ast.Node) bool {
+							if call, isCall := x.(*ast.CallExpr); isCall {
+								for _, a := range call.Args {
+									if id, isID := ast.Unparen(a).(*ast.Ident); isID && sc.Dest != nil && objOf(sc.Pkg.TypesInfo, id) == types.Object(sc.Dest) {
+										ok = true
+									}
+								}
+							}
+							return true
+						})
+						for _, e := range sc.Emits {
+							if e.ToDest && e.Ctx == st.Src && e.Slot == model.SlotNext {
+								ok = true
+							}
+						}
+					}
+				}
+				if ok {
+					c.OK(key, sc.Lit.Pos(), "the next slot hands each notification and the destination to the dispatcher")
+				} else {
+					c.Violation(key, sc.Lit.Pos(), "the next slot of %s neither dispatches the received notification to the destination nor emits anything: every materialised notification is dropped", name)
+				}
+			}
 			if sc := m.SCByName("ro.Materialize"); sc != nil {
 				for k := 0; k < 3; k++ {
 					key := fmt.Sprintf("ro.Materialize/slot-%s", model.SlotNames[k])
